@@ -138,7 +138,7 @@ def run(tier):
       kw[f] = v
       cases.append(kw)
   # pairs of fields off their defaults (every field x every field in thorough, a sample in quick)
-  n_pairs = 1500 if tier == 'quick' else 60000
+  n_pairs = common.sz(tier, 1500, 60000)
   for _ in range(n_pairs):
     kw = dict(BASE)
     for f in rng.sample(ALL, rng.choice([2, 2, 3, 16])):
